@@ -330,6 +330,7 @@ DRIVERS = {
     "vdriver": dict(name="vdriver", extract_v="theories/Extract/ExtractHeightmap.v", modname="vmodel"),
     "pdriver": dict(name="pdriver", extract_v="theories/Extract/ExtractProgress.v", modname="pmodel"),
     "cdriver": dict(name="cdriver", extract_v="theories/Extract/ExtractContours.v", modname="cmodel"),
+    "gdriver": dict(name="gdriver", extract_v="theories/Extract/ExtractGrid.v", modname="gmodel"),
 }
 
 
